@@ -103,6 +103,10 @@ enum Defect {
     /// the root allows no intermediate, yet there is one
     RootPathLen0,
     CriticalExt(Which),
+    /// the critical unknown extension sits in the third `future-extensions` element, after harmless ones
+    CriticalExtInLaterElement(Which),
+    /// one element carrying a harmless extension followed by a critical one
+    CriticalExtLaterInBlob(Which),
     NocNoNodeId,
     NocNoFabricId,
     /// the leaf is a certificate of another fabric of the same authority
@@ -142,7 +146,7 @@ fn must_reject(b: &Base, d: Defect, e: Entry) -> Option<bool> {
     let has = |w: Which| w != Which::Icac || b.icac;
     Some(match d {
         None => false,
-        SigBit(w, _) | Akid(w) | Skid(w) | Expired(w) | ExpiredByOne(w) | CriticalExt(w) => {
+        SigBit(w, _) | Akid(w) | Skid(w) | Expired(w) | ExpiredByOne(w) | CriticalExt(w) | CriticalExtInLaterElement(w) | CriticalExtLaterInBlob(w) => {
             if !has(w) {
                 return Option::None;
             }
@@ -261,7 +265,7 @@ fn build_chain<C: Crypto>(c: &C, k: &Keys, leaf: &KeyPair, node_id: u64, b: &Bas
             s.key_usage = s.key_usage.map(|k| k | 0x0002 | 0x0080);
         }
         if b.benign_ext == Some(w) {
-            s.future = Some(certw::FUTURE_NON_CRITICAL.to_vec());
+            s.future = vec![certw::FUTURE_NON_CRITICAL.to_vec(), [certw::FUTURE_NON_CRITICAL, certw::FUTURE_NON_CRITICAL].concat()];
         }
         match d {
             NotYetValid(x) if x == w => {
@@ -280,7 +284,9 @@ fn build_chain<C: Crypto>(c: &C, k: &Keys, leaf: &KeyPair, node_id: u64, b: &Bas
                 s.not_before = 1;
                 s.not_after = now - 1;
             }
-            CriticalExt(x) if x == w => s.future = Some(certw::FUTURE_CRITICAL.to_vec()),
+            CriticalExt(x) if x == w => s.future = vec![certw::FUTURE_CRITICAL.to_vec()],
+            CriticalExtInLaterElement(x) if x == w => s.future = vec![certw::FUTURE_NON_CRITICAL.to_vec(), certw::FUTURE_NON_CRITICAL.to_vec(), certw::FUTURE_CRITICAL.to_vec()],
+            CriticalExtLaterInBlob(x) if x == w => s.future = vec![[certw::FUTURE_NON_CRITICAL, certw::FUTURE_CRITICAL].concat()],
             _ => {}
         }
     };
@@ -366,7 +372,7 @@ fn build_chain<C: Crypto>(c: &C, k: &Keys, leaf: &KeyPair, node_id: u64, b: &Bas
         }
         (for_children, &k.ica, Some(bytes))
     } else {
-        if matches!(d, SigBit(Which::Icac, _) | IssuerCaId(Which::Icac) | IssuerFabric(Which::Icac) | Akid(Which::Icac) | Skid(Which::Icac) | NotYetValid(Which::Icac) | Expired(Which::Icac) | NotYetValidByOne(Which::Icac) | ExpiredByOne(Which::Icac) | CaNotCa(Which::Icac) | CaNoBasic(Which::Icac) | CaKuNoCertSign(Which::Icac) | CaNoKu(Which::Icac) | CriticalExt(Which::Icac) | IcacFabricOther | Swapped | AuthorityAsLeaf | IcacIsRoot) {
+        if matches!(d, SigBit(Which::Icac, _) | IssuerCaId(Which::Icac) | IssuerFabric(Which::Icac) | Akid(Which::Icac) | Skid(Which::Icac) | NotYetValid(Which::Icac) | Expired(Which::Icac) | NotYetValidByOne(Which::Icac) | ExpiredByOne(Which::Icac) | CaNotCa(Which::Icac) | CaNoBasic(Which::Icac) | CaKuNoCertSign(Which::Icac) | CaNoKu(Which::Icac) | CriticalExt(Which::Icac) | CriticalExtInLaterElement(Which::Icac) | CriticalExtLaterInBlob(Which::Icac) | IcacFabricOther | Swapped | AuthorityAsLeaf | IcacIsRoot) {
             return Ok(Option::None);
         }
         (rc_for_children.clone(), signing_root, Option::None)
@@ -700,7 +706,7 @@ fn defects(all_sig_bits: bool) -> Vec<Defect> {
                 v.push(SigBit(w, i));
             }
         }
-        v.extend([IssuerCaId(w), IssuerFabric(w), Akid(w), NotYetValid(w), Expired(w), NotYetValidByOne(w), ExpiredByOne(w), CriticalExt(w)]);
+        v.extend([IssuerCaId(w), IssuerFabric(w), Akid(w), NotYetValid(w), Expired(w), NotYetValidByOne(w), ExpiredByOne(w), CriticalExt(w), CriticalExtInLaterElement(w), CriticalExtLaterInBlob(w)]);
         if w != Which::Noc {
             v.extend([Skid(w), CaNotCa(w), CaNoBasic(w), CaKuNoCertSign(w), CaNoKu(w)]);
         }
